@@ -599,7 +599,7 @@ def extra_arith(srcs, declared):
     return out
 
 
-def cmp_table(R, key, body, A, B, expect, classify, what="", min_sites=1, max_sites=None, S=None, strict=True, arith=((), ())):
+def cmp_table(R, key, body, A, B, expect, classify, what="", min_sites=1, max_sites=None, S=None, strict=True, arith=((), ()), only_ops=None):
     """expect: dict {'<': label, '=': label, '>': label}; classify(body, site, true_t, false_t) -> (label_true, label_false)
     or None when the site is irrelevant."""
     R.fn(body)
@@ -608,6 +608,8 @@ def cmp_table(R, key, body, A, B, expect, classify, what="", min_sites=1, max_si
     good = 0
     ok = True
     for site, swapped in found:
+        if only_ops and site.op not in only_ops:
+            continue
         tr = cmp_truth(site, swapped)
         for (sw, tt, ft) in branch_targets(body, site) or [(None, None, None)]:
             labs = classify(body, site, tt, ft)
